@@ -10,13 +10,24 @@
      args_ok md wire             the generated argument decoding accepts a body with top-level values `wire` (C26/Model.v)
      wire_out o outs             the top-level values of the reply body for handler results outs of declared shape o
      flattened md wire           the two re-groupings of a (us) structure that the parsed signature cannot tell apart (C26)
+     erase x / read_doc t        the infoset quick-xml's tokenizer delivers for x (comments dropped) / zbus_xml's reader
+                                 (C34/Model.v `of_node`, signatures through the C06 model, names through the C10 validators)
+     d_node name n               SPECIFICATION: the document declared by the descriptions registered in n (C27/Spec.v)
+     names_ok n                  interface, member and property names of everything registered in n are valid D-Bus names
      xi_wf x                     no comment of x contains "--"  (XML 1.0 well-formedness of comments)
      node_dd n                   some doc text of an interface registered in the subtree n contains "--" *)
 From ZV Require Import Base.Bytes C26.Desc C26.Tree C26.Msg C27.Model C28.Model C26.Model.
-From ZV Require Import C28.Spec C26.Spec C27.Spec C26.Facts C26.Proofs C28.Proofs C27.Proofs C27.Examples.
+From ZV Require Import C28.Spec C26.Spec C27.Spec C26.Facts C26.Proofs C28.Proofs C27.Proofs C27.Reader C27.ReadBack C27.Examples.
 
 (* The well-formedness part as stated, kept visible; REFUTED (C27_wellformed_refuted). *)
 Definition C27_wellformed_full_statement : Prop := forall n name, xi_wf (node_item name n) = true.
+
+(* --- the XML is read back by the library's own XML model, and what it reads is the declared document --- *)
+Theorem C27_reads_back :
+  forall (n : node) (name : option bytes),
+    names_ok n -> exists t, erase (node_item name n) = [t] /\ read_doc t = Ok (d_node name n).
+Proof. exact reads_back. Qed.
+Print Assumptions C27_reads_back.
 
 (* --- the XML of a node lists exactly the object's interfaces (standard + registered) and exactly its children --- *)
 Theorem C27_lists_exactly :
